@@ -3,6 +3,7 @@
 A *case* is one call of one collective: (idx, coll, mode, root, pat, c, dt, op, vseed, late) - see harness/mpi/coll_check.c.
 A *run* is one smpirun execution: (collective, algorithm, np, layout) + a list of cases of that collective.
 """
+import math
 import re
 
 ROOTED = {"bcast", "gather", "gatherv", "scatter", "scatterv", "reduce"}
@@ -101,34 +102,35 @@ PLATFORM_XML = """<?xml version='1.0'?>
 """
 
 
-def counts_for(np, rng, tier, coll):
-    """{0,1,2,np-1,np,np+1} + counts that are not multiples of np and cross the segment sizes of the pipelined algorithms."""
-    big1 = rng.randrange(600, 900)
-    big2 = rng.randrange(3100, 5000)
-    for _ in range(8):
-        if np > 1 and big1 % np == 0:
-            big1 += 1
-        if np > 1 and big2 % np == 0:
-            big2 += 1
-    cs = {0, 1, 2, max(np - 1, 0), np, np + 1, big1}
-    per_rank = coll in ("gather", "scatter", "allgather", "alltoall", "gatherv", "scatterv", "allgatherv", "alltoallv", "alltoallw",
-                        "reduce_scatter", "reduce_scatter_block")
-    if not per_rank or np <= 8:
-        cs.add(big2)
-    else:
-        cs.add(max(big2 // np, np + 2))
+PER_RANK_BUFFERS = ("gather", "scatter", "allgather", "alltoall", "gatherv", "scatterv", "allgatherv", "alltoallv", "alltoallw",
+                    "reduce_scatter", "reduce_scatter_block")
+
+
+def _non_multiple(c, np):
+    while np > 1 and c % np == 0:
+        c += 1
+    return c
+
+
+def counts_for(np, tier, coll):
+    """{0,1,2,np-1,np,np+1} + counts that are not multiples of np and cross the segment sizes of the pipelined algorithms.
+    The list does not depend on the seed (the seed draws the data, the late ranks and the order of the calls), so that the
+    classes reached by a tier are the same for every seed."""
+    big1 = _non_multiple(701, np)                   # 2.8 kB of int: below every segment size
+    big2 = _non_multiple(4099, np)                  # 16 kB of int: above the 8 kB segments and the 12 kB short-message limits
+    if coll in PER_RANK_BUFFERS and np > 8:
+        big2 = _non_multiple(max(4099 * 8 // np, np + 2), np)
+    cs = {0, 1, 2, max(np - 1, 0), np, np + 1, big1, big2}
+    if tier == "thorough":
+        cs |= {3, 7, 16, 31, _non_multiple(100, np), _non_multiple(1025, np), 2048 if coll not in PER_RANK_BUFFERS else 128}
     return sorted(cs)
 
 
-def huge_count(np, rng, coll):
-    per_rank = coll in ("gather", "scatter", "allgather", "alltoall", "gatherv", "scatterv", "allgatherv", "alltoallv", "alltoallw",
-                        "reduce_scatter", "reduce_scatter_block")
-    h = rng.randrange(140000, 160000)
-    if per_rank:
+def huge_count(np, coll):
+    h = 150001                                      # 600 kB of int: above the 512 kB long-message limits
+    if coll in PER_RANK_BUFFERS:
         h = h // np
-    if np > 1 and h % np == 0:
-        h += 1
-    return h
+    return _non_multiple(h, np)
 
 
 def gen_cases(call, variant, np, rng, tier):
@@ -145,7 +147,7 @@ def gen_cases(call, variant, np, rng, tier):
                 cases.append(dict(coll=call, mode=modes[0], root=late, pat=0, c=rep * 40 + late, dt="int", op="none", vseed=0,
                                   late=-1))
         return _number(cases)
-    counts = counts_for(np, rng, tier, call)
+    counts = counts_for(np, tier, call)
     reducing = call in REDUCING
     feats = COMBOS if reducing else [(d, "none") for d in MOVE_DTS]
     pats = [0, 10, 1, 11, 2, 12] if call in VCOLLS else [0]
@@ -178,7 +180,7 @@ def gen_cases(call, variant, np, rng, tier):
                     add(mode, root, pats[k % len(pats)], c, feats[k % len(feats)])
                     k += 1
     if tier == "thorough" and variant == "blocking":
-        h = huge_count(np, rng, call)
+        h = huge_count(np, call)
         for root in sorted({roots[0], roots[-1]}):
             for feat in feats[:2]:
                 add("b", root, 0, h, feat)
@@ -230,20 +232,63 @@ def _irregular(np, layout, case):
     return not (_uniform(layout, np) and _blocked(layout, np))
 
 
+def is_2dmesh(n):
+    """Transcription of is_2dmesh() of allgather-2dmesh.cpp / alltoall-2dmesh.cpp."""
+    x, mx = int(math.sqrt(n)), n // 2
+    while x <= mx:
+        if x > 0 and n % x == 0:
+            return True
+        x += 1
+    return False
+
+
+def is_3dmesh(n):
+    """Transcription of is_3dmesh() of allgather-3dmesh.cpp / alltoall-3dmesh.cpp."""
+    x = int(round(n ** (1.0 / 3)))
+    if x ** 3 > n:
+        x -= 1
+    mx = n // 3
+    while x <= mx:
+        if x > 0 and n % (x * x) == 0:
+            return True
+        x += 1
+    return False
+
+
 def _not_2dmesh(np, layout, case):
-    # colls_private: is_2dmesh() accepts np = X*Y found from sqrt(np) downwards with X>1 ... (see allgather-2dmesh.cpp)
-    return True     # checked against the algorithm's own function in C29.py via the message only; any np may be refused
+    return not is_2dmesh(np)
 
 
+def _not_3dmesh(np, layout, case):
+    return not is_3dmesh(np)
+
+
+def _rab_datatype(np, layout, case):
+    return case is not None and case["dt"] not in ("int", "dbl")
+
+
+def _unequal_counts(np, layout, case):
+    return case is not None and case["coll"] == "reduce_scatter" and case["pat"] % 10 != 0 and np > 1
+
+
+POW2 = r"can't be used with non power of two number of processes"
 REFUSALS = [
-    (r"allreduce", r"rab1|smp_rsag_rab", r"can't be used with non power of two number of processes", _nonpow2, "run"),
-    (r"allgather", r"pair|rhv", r"can't be used with non power of two number of processes", _nonpow2, "run"),
-    (r"allgatherv", r"pair", r"can't be used with non power of two number of processes", _nonpow2, "run"),
-    (r"alltoall", r"pair(_light_barrier|_mpi_barrier|_one_barrier)?", r"can't be used with non power of two number of processes",
-     _nonpow2, "run"),
-    (r"alltoallv", r"pair(_light_barrier|_mpi_barrier|_one_barrier)?", r"can't be used with non power of two number of processes",
-     _nonpow2, "run"),
+    (r"allreduce", r"rab1|smp_rsag_rab", POW2, _nonpow2, "run"),
+    (r"allgather", r"pair|rhv", POW2, _nonpow2, "run"),
+    (r"allgatherv", r"pair", POW2, _nonpow2, "run"),
+    (r"alltoall", r"pair(_light_barrier|_mpi_barrier|_one_barrier)?", POW2, _nonpow2, "run"),
+    (r"alltoallv", r"pair(_light_barrier|_mpi_barrier|_one_barrier)?", POW2, _nonpow2, "run"),
     (r"allgather", r"mvapich2_smp", r"can't be used with irregular deployment", _irregular, "run"),
+    (r"allgather", r"2dmesh", r"allgather_2dmesh algorithm can't be used with this number of processes", _not_2dmesh, "run"),
+    (r"allgather", r"3dmesh", r"allgather_3dmesh algorithm can't be used with this number of processes", _not_3dmesh, "run"),
+    # alltoall 2dmesh/3dmesh answer MPI_ERR_OTHER (no message) when the size is not a mesh: an error code, not a wrong buffer
+    (r"alltoall", r"2dmesh", r"^error-return code=\d+$", _not_2dmesh, "run"),
+    (r"alltoall", r"3dmesh", r"^error-return code=\d+$", _not_3dmesh, "run"),
+    (r"reduce|allreduce", r"rab", r"reduce rab algorithm can't be used with this datatype", _rab_datatype, "case"),
+    # reduce_scatter-mpich.cpp:179/182: xbt_assert(pof2 == comm_size) "FIXME this version only works for power of 2 procs",
+    # xbt_assert(recvcounts[i] == recvcounts[i+1])
+    (r"reduce_scatter", r"mpich_noncomm", r"pof2 == comm_size", _nonpow2, "run"),
+    (r"reduce_scatter", r"mpich_noncomm", r"recvcounts\[i\] == recvcounts\[i ?\+ ?1\]", _unequal_counts, "case"),
 ]
 
 
